@@ -233,8 +233,19 @@ PROPS["C08"] = dict(
 )
 
 HOOK_COMMITS = []
+PROPS["C16"] = dict(
+    level="other",
+    claim="Partial, small scope: for operands of CONSTANT small shape with symbolic integer element values, the element of view::matmul is the sum of products over exactly the contracted index with NumPy's result shape - 2-d operands (1,1,1) (2,2,2) (2,3,2) (3,2,4) (1,4,3) (3,3,1) and batched operands incl. a broadcast batch axis on either side - and trace is the sum of the diagonal; in the thorough tier also matmulv2 (the tile/reshape/transpose/multiply/sum pipeline), dot / inner / vecdot of vectors, outer, kron (2,2)x(2,2) and tensordot with one contracted axis. Every operation of the view pipeline is compiled for those shapes and folded by LLVM, the values stay symbolic. Larger or run-time shapes, 1-d operand promotion in matmul, tensordot with explicit axis lists and floating-point data are not decided.",
+    note=E1_NOTE + " The shapes are compile-time constants (tuple of meta::ct), i.e. the constant-shape branch of every index function on the path is what is proved; the run-time-shape branches of the same pipelines are covered only as far as C01-C08 cover the individual index functions.",
+    technique=E1_TECH + " on view pipelines of constant shape (symbolic values)",
+    e1=[dict(tu="c16_linalg.cpp")],
+    rule=E1_RULE,
+    explanation="expected element written as the nested sum a(i,0)*b(0,j) + a(i,1)*b(1,j) + ... in index order; integer arithmetic wraps identically on both sides (-fwrapv), so the equality is exact for every value.",
+    not_decided="run-time shapes, shapes beyond the listed ones, 1-d promotion in matmul, tensordot with axis lists, floating point",
+    assumptions=["operands do not alias the result (views are evaluated lazily, no output buffer involved)"],
+)
+
 NOT_APPLICABLE = [
  dict(property_id="C05", reason="slice lengths go through ceil(float) and an 8-way sign/None case split on run-time values; no sound static argument in reach, and weaker structural proxies are not necessary conditions (DESIGN §3 C05)"),
- dict(property_id="C16", reason="value-level sums over run-time contraction lengths through 5-8 stage view pipelines; nothing structural that is also necessary (DESIGN §3 C16). Tried: E1 on index::shape_matmul discharges only operands of rank <= 2 (batch axes go through a run-time-length split into hybrid containers); those obligations are kept under C15 (argument check), not claimed as C16"),
  dict(property_id="C17", reason="floating-point results of long view pipelines with tolerance; nothing structural that is also necessary (DESIGN §3 C17). Tried: the pooling output-shape formula is computed in float (ceil/floor of a float quotient), out of reach of E1; the pad stage (index::pad, view::pad) is integer-only and is proved under C02/C15"),
 ]
